@@ -213,6 +213,17 @@ def main():
                         continue
                     n = count_mutants(ast.parse(open(os.path.join(a.repo, rel)).read()), ENV_FUNCS)
                     tasks += [(a.repo, rel, ENV_FUNCS, k, ENV_PROPS) for k in range(n)]
+    if a.scope in ("gen", "all"):
+        GEN_FUNCS = {"_generate", "generate_time_windows", "generate_distance_limit", "generate_demands", "generate_backhaul_class", "generate_locations",
+                     "_simulate_processing_times", "get_sampler", "subsample_problems"}
+        for dirpath, _, files in os.walk(os.path.join(a.repo, "rl4co/envs")):
+            for fn in files:
+                if fn == "generator.py" or (fn == "utils.py" and dirpath.endswith("common")):
+                    rel = os.path.relpath(os.path.join(dirpath, fn), a.repo)
+                    if "/mpdp/" in rel or "/shpp/" in rel:
+                        continue
+                    n = count_mutants(ast.parse(open(os.path.join(a.repo, rel)).read()), GEN_FUNCS)
+                    tasks += [(a.repo, rel, GEN_FUNCS, k, ["C18"]) for k in range(n)]
     if a.scope in ("model", "all"):
         for rel, (funcs, props) in MODEL_TARGETS.items():
             n = count_mutants(ast.parse(open(os.path.join(a.repo, rel)).read()), funcs)
